@@ -16,6 +16,9 @@ Driver for C02.  Request line (fields `k=v` separated by single spaces, values w
             | reget:N|T|F:k                           -- get_node_tree(node k, fragment)
             | ecmp:is|prec|foll:L|R:k | eroot         -- empty operand
             | citem:k                                 -- XPathContext(root, item=<wrapped object of node k>).item
+            | px:<i|s|r|q>:<focus>:<op>:<E1>:<E2>     -- operator with PATH operands evaluated at focus node `focus`
+                 (form: item= / `$f/(…)` / `(//*)[k]/(…)` / predicate `$f[…]`; op: union bar inter except is prec foll
+                  inner outer root; E: path codes of EPV/Spec/XDMTree.lean `pathEval`)
   lz=<i.j|_>/<i.j|_>  elements (indices) whose namespace nodes / attributes are built for the `lazy1` answer
 
 Answer:  model=<dump> spec=<dump> ops=<m/s;m/s;…|_> lazy0=<idxs> lazy1=<idxs> desc=<idxs>
@@ -203,6 +206,41 @@ def parseCtx (s : String) : Option (Option Nat) := if s == "-" then some none el
 def answerTreeOp (root : PNode) (nodes : List Rec) (items : List Item) (op : String) : Option String :=
   let allBuilt : LazyState := ⟨nodes.map (·.pos), nodes.map (·.pos)⟩
   match op.splitOn ":" with
+  | ["px", form, fo, opn, c1, c2] => match nat? fo with
+    | none => some "bad"
+    | some focus =>
+      let e1 : Nat → List Nat := fun f => pathEval items f c1
+      let e2 : Nat → List Nat := fun f => pathEval items f c2
+      let n := items.length
+      let single (l : List Nat) : Option Nat := l.head?
+      -- value: (list result, or boolean result)
+      let setRes : Option (List Nat × List Nat) :=
+        if opn == "union" || opn == "bar" then
+          some (opAtFocus (opUnion nodes) e1 e2 focus, specUnion n (e1 focus) (e2 focus))
+        else if opn == "inter" then some (opAtFocus (opIntersect nodes) e1 e2 focus, specIntersect n (e1 focus) (e2 focus))
+        else if opn == "except" then some (opAtFocus (opExcept nodes) e1 e2 focus, specExcept n (e1 focus) (e2 focus))
+        else if opn == "inner" then
+          some (opAtFocus (fun a b => opInnermost nodes (a ++ b)) e1 e2 focus, specInnermost items (e1 focus ++ e2 focus))
+        else if opn == "outer" then
+          some (opAtFocus (fun a b => opOutermost nodes (a ++ b)) e1 e2 focus, specOutermost items (e1 focus ++ e2 focus))
+        else if opn == "root" then
+          some (((single (e1 focus)).bind (opRoot nodes)).toList, ((single (e1 focus)).bind (specRoot n)).toList)
+        else none
+      let boolRes : Option (Option Bool × Option Bool) :=
+        match single (e1 focus), single (e2 focus) with
+        | some a, some b =>
+          if opn == "is" then some (some (opIs a b), some (specIs a b))
+          else if opn == "prec" then some (opPrecedes nodes a b, some (specPrecedes a b))
+          else if opn == "foll" then some (opFollows nodes a b, some (specFollows a b))
+          else none
+        | _, _ => if opn == "is" || opn == "prec" || opn == "foll" then some (none, none) else none
+      let wrapL (l : List Nat) : String := if form == "q" then (if l.isEmpty then "_" else toString focus) else showIdxs l
+      let wrapB (b : Option Bool) : String :=
+        if form == "q" then (if b == some true then toString focus else "_") else showOB b
+      match setRes, boolRes with
+      | some (m, sp), _ => some s!"{wrapL m}/{wrapL sp}"
+      | none, some (m, sp) => some s!"{wrapB m}/{wrapB sp}"
+      | none, none => some "bad"
   | ["ecmp", _, _, _] => some "-/-"      -- an empty operand: the comparison is the empty sequence
   | ["eroot"] => some "-/-"               -- fn:root(()) = ()
   | ["citem", k] => some s!"{k}/{k}"      -- tree.elements maps the wrapped object of node k to node k
